@@ -189,20 +189,161 @@ def kde_harness(N, D):
         ensure(h, ctx, "C05.kde.is-log-of-equal-weight-gaussian-mixture", pr[()] == s_log(tot))
 
     def native_clauses(h, inp, res):
-        if D != 1:
+        s = torch.as_tensor(inp["samples"], dtype=torch.float32)
+        if D > 2 or float(s.abs().max()) > 30:
             return {}
-        g = torch.linspace(-40.0, 40.0, 16001, dtype=torch.float64)
-        s = torch.as_tensor(inp["samples"], dtype=torch.float32); g = g.float()
-        if float(s.abs().max()) > 30:
-            return {}
-        lp = torch.stack([tu.gaussian_kde_log_eval(s, g[i:i + 1]) for i in range(0, len(g), 16)])
-        mass = float(torch.exp(lp).sum() * (80.0 / 16000) * 16)
-        return {"C05.kde.is-log-of-equal-weight-gaussian-mixture": abs(mass - 1.0) < 5e-3}
+        n = 16001 if D == 1 else 321
+        g = torch.linspace(-40.0, 40.0, n, dtype=torch.float32)
+        pts = g[:, None] if D == 1 else torch.cartesian_prod(g, g)
+        lp = torch.cat([tu.gaussian_kde_log_eval(s, pts[i:i + 4096, None, :]) for i in range(0, len(pts), 4096)])
+        mass = float(torch.exp(lp.double()).sum() * (80.0 / (n - 1)) ** D)
+        return {"C05.kde.is-log-of-equal-weight-gaussian-mixture": abs(mass - 1.0) < 2e-2}
 
     hn = Harness(f"gaussian_kde_log_eval[N={N},D={D}]", run, post, native_call=lambda h, inp: tu.gaussian_kde_log_eval(torch.as_tensor(inp["samples"], dtype=torch.float32), torch.as_tensor(inp["query"], dtype=torch.float32)),  # torch.eye(D) is float32: the function only accepts single precision
-                 native_clauses=native_clauses, functions=[tu.gaussian_kde_log_eval])
+                 native_clauses=native_clauses, functions=[tu.gaussian_kde_log_eval],
+                 sample=lambda h, rng: {"samples": rng.normal(size=(N, D)) * 2, "query": rng.normal(size=(D,))})
+    hn.native_float32 = False
+    hn.native_tries = 3
     return hn
 
 
 def kde_harnesses(tier):
-    return [kde_harness(1, 1), kde_harness(1, 2), kde_harness(32, 1)] + ([kde_harness(64, 2)] if tier != "quick" else [])
+    return [kde_harness(1, 1), kde_harness(1, 2), kde_harness(32, 1), kde_harness(64, 2)]
+
+
+# ------------------------------------------------------------------------------------------------------------------
+# ancestral sampling of the mixture (MixtureOfGaussiansMADE.sample): one feature per pass
+# ------------------------------------------------------------------------------------------------------------------
+class StubCategorical:
+    """assumed contract of torch.distributions.Categorical(logits=l).sample(shape): integer draws in [0, K), one per row of l (the
+    distributional part - P(k) = softmax(l)_k - is the assumed contract of the external sampler); the logits each draw was made from are recorded"""
+    made = []
+
+    def __init__(self, logits=None, probs=None):
+        self.logits = logits
+        StubCategorical.made.append(self)
+
+    def sample(self, sample_shape=()):
+        from tsv.core import fresh
+        import z3 as _z
+        pl = P(self.logits)
+        rows, K = pl.shape[0], pl.shape[-1]
+        shape = tuple(sample_shape) + (rows,)
+        out = np.empty(shape, dtype=object)
+        ctx = C()
+        for idx in np.ndindex(*shape):
+            v = fresh("categorical", _z.IntSort())
+            ctx.assume(_z.And(v >= 0, v < K))
+            out[idx] = v
+        self.draws = out
+        s = Sym.make(out, torch.int64)
+        s._g = {"taint": "random"}
+        return s
+
+
+def mog_sample_harness(D, K, Cn, n):
+    """Cn context rows (0: no context), n samples each"""
+    B = (Cn or 1) * n
+
+    def run(h, ctx):
+        m = made_n.MixtureOfGaussiansMADE(D, 4, context_features=2 if Cn else None, num_blocks=1, num_mixture_components=K, custom_initialization=False)
+        m.eval()
+        stub = MadeStub(D, 3 * K)
+        h.m = m
+        c = h.inp("context", (Cn, 2)) if Cn else None
+        orig = made_n.MADE.forward; origc = made_n.distributions.Categorical
+        made_n.MADE.forward = lambda self, inputs, context=None: stub(inputs, context)
+        made_n.distributions.Categorical = StubCategorical
+        StubCategorical.made = []
+        try:
+            out = m.sample(n, context=c)
+            h.cats = list(StubCategorical.made)
+            h.noise = [s for nm, s in ctx.notes.get("random_draws", []) if nm == "randn"]
+            return out
+        finally:
+            made_n.MADE.forward = orig; made_n.distributions.Categorical = origc
+
+    def post(h, ctx, out):
+        from tsv.ops import s_softplus
+        from tsv.ops_move import softmax_rows
+        po = P(out)
+        want_shape = (Cn, n, D) if Cn else (n, D)
+        ensure(h, ctx, "C18.sample-shape", z3.BoolVal(tuple(po.shape) == want_shape))
+        if tuple(po.shape) != want_shape:
+            return
+        pc = P(h.inputs["context"]) if Cn else None
+        cid = {pc[idx].get_id(): idx for idx in np.ndindex(*pc.shape)} if Cn else {}
+        eps = rv(h.m.epsilon)
+        ok_counts = len(h.cats) == D and len(h.noise) == D and all(tuple(P(s).shape) == (B,) for s in h.noise)
+        ensure(h, ctx, "C05.mog.sample-one-draw-per-feature-and-row", z3.BoolVal(ok_counts))
+        if not ok_counts:
+            return
+        for r in range(Cn or 1):
+            cargs = [toreal(t) for t in pc[r]] if Cn else []
+            for s in range(n):
+                row = po[r, s] if Cn else po[s]
+                # which flat row of the pass-by-pass buffer this sample came from is the code's business: it must exist
+                found = False
+                for q in range(B):
+                    good = True
+                    for i in range(D):
+                        args = [toreal(t) for t in row[:i]] + cargs
+                        unit = lambda u: (z3.Function(f"made_{i}_{u}", *([R] * (len(args) + 1)))(*args) if args else z3.Const(f"made_{i}_{u}_c", R))
+                        kq = h.cats[i].draws.reshape(-1)[q]
+                        kv = z3.simplify(kq)
+                        from tsv.ops_move import decide_int
+                        k = decide_int(kq, 0, K)
+                        mean, sd = unit(3 * k + 1), s_softplus(unit(3 * k + 2)) + eps
+                        want = mean + P(h.noise[i])[q] * sd
+                        if not z3.eq(z3.simplify(row[i] - want), rv(0)) and not z3.eq(row[i], want):
+                            good = False; break
+                        # the component was drawn from the logits of the same conditional
+                        lg = P(h.cats[i].logits)[q]
+                        wl = softmax_rows(np.array([[unit(3 * kk) for kk in range(K)]], dtype=object), 1, True)[0]
+                        if not all(z3.eq(a, b_) for a, b_ in zip(lg, wl)):
+                            good = False; break
+                    if good:
+                        found = True; break
+                # ancestral sampling: x_i = mu_ik(x_<i, context_r) + eps_i * sigma_ik(x_<i, context_r),  k ~ Categorical(pi_i(x_<i, context_r))
+                ensure(h, ctx, "C05.mog.sample-is-ancestral-draw-of-own-context-row", z3.BoolVal(found))
+                bad = [cid[sid] for t in row for sid in base_symbols(t) if sid in cid and cid[sid][0] != r]
+                ensure(h, ctx, "C04.sample-row-uses-own-context-only", z3.BoolVal(not bad))
+
+    def native_call(h, inp):
+        torch.manual_seed(3)
+        m = made_n.MixtureOfGaussiansMADE(D, 8, context_features=2 if Cn else None, num_blocks=1, num_mixture_components=K, custom_initialization=False)
+        m.eval()
+        with torch.no_grad():
+            for p_ in m.parameters(): p_.mul_(3.0)
+        c = torch.tensor([[1.0, -1.0], [-2.0, 0.5], [0.3, 2.0]])[:Cn] if Cn else None       # distinct rows (the model's rows may coincide)
+        return m, c
+
+    def native_clauses(h, inp, res):
+        # statistical replay (seeded): per context row, the sample mean of feature 0 against the mixture mean of its first conditional
+        m, c = res
+        if not Cn:
+            return {}
+        torch.manual_seed(4)
+        N = 4000
+        smp = m.sample(N, context=c)
+        # two-sample z-test per context row against a one-row-at-a-time draw (feature 0 of a MADE never sees the context: use the last one)
+        ok = True
+        for r in range(Cn):
+            ref = m.sample(N, context=c[r:r + 1])[0, :, D - 1]
+            got = smp[r, :, D - 1]
+            z = float((got.mean() - ref.mean()).abs() / ((got.var() + ref.var()) / N).sqrt())
+            ok = ok and z < 6
+        return {"C05.mog.sample-is-ancestral-draw-of-own-context-row": ok, "C04.sample-row-uses-own-context-only": ok}
+
+    hn = Harness(f"MoGMADE_sample[D={D},K={K},contexts={Cn},n={n}]", run, post, native_call=native_call, native_clauses=native_clauses, check_defined=False,
+                 functions=[made_n.MixtureOfGaussiansMADE.sample], sample=lambda h, rng: ({"context": rng.normal(size=(Cn, 2))} if Cn else {}))
+    hn.native_tries = 2
+    hn.native_float32 = False
+    return hn
+
+
+def mog_sample_harnesses(tier):
+    hs = [mog_sample_harness(2, 1, 2, 2), mog_sample_harness(2, 2, 0, 1), mog_sample_harness(2, 2, 1, 1)]
+    if tier != "quick":
+        hs += [mog_sample_harness(3, 1, 2, 3), mog_sample_harness(2, 2, 2, 1), mog_sample_harness(1, 3, 0, 2)]
+    return hs
